@@ -1,5 +1,5 @@
 """Registry: which stages decide which property (see DESIGN.md section 5)."""
-from checklib import PROPS, make_prop, ES, GS, tlc_only_stage
+from checklib import PROPS, make_prop, ES, GS, tlc_only_stage, refstore_stage
 
 COMMON_ASSUME = [
     "the TLA+ transcription of RFC 9535 (spec/JPSemantics.tla) is faithful; anchored by the RFC's example tables as ASSUMEs (spec/RFCExamples.tla), reproduced from memory",
@@ -50,4 +50,8 @@ PROPS["C07"] = make_prop("C07", [GS("C07", "C07", "reject,accept")],
     COMMON_ASSUME + ["strings the properties do not speak about (unknown function names, blanks inside singular-query brackets, huge number literals) are labelled unscoped and skipped"])
 PROPS["C13"] = make_prop("C13", [GS("C13", "C13", "order,accept")],
     "all spellings within the variation budget of each abstract query, evaluated on three probe documents: each must return the specification's nodelist for the ABSTRACT query in order (so all spellings agree); spec-side invariant SpellingSame; " + GR,
+    COMMON_ASSUME)
+
+PROPS["C09"] = make_prop("C09", [lambda ev, tier, seed: refstore_stage(ev, "C09", tier, seed)],
+    "histories of up to 2 (thorough 3) reads/writes through the Normalized Paths of EVERY location of the initial document and of locations that do not exist (missing name, index = len, name step on an array, index step on an object); member names include / ~ ~1 0 1 '' and (thorough) ' \\ \" LF; after every step the node address / the whole document is compared with the specification; non-trivial = the history touches an existing location",
     COMMON_ASSUME)
